@@ -78,42 +78,51 @@ Definition blas_axpy (k : T) (x y : list T) : list T := vmap2 (fun u v => k * u 
 Definition blas_scal (k : T) (x : list T) : list T := map (fun u => k * u) x.
 
 (* -- the three primitives as bound in each regime (calling convention:
-   axpy(x, y, n, a)   scal(a, x, n)   copy(x, y, n)) *)
-Definition do_scal (r : regime) (k : T) (t : nat) (s : store) : store :=
+   axpy(x, y, n, a)   scal(a, x, n)   copy(x, y, n)).
+   In the BLAS regime the primitives work on  out.data.ravel(order): a VIEW of out
+   iff out is contiguous in that order ([bi_view]); the BLAS routines update their
+   argument in place iff moreover the dtype is one BLAS handles ([bi_call]),
+   otherwise they work on a converted copy and the update is lost. *)
+Record blasinfo := { bi_view : bool; bi_call : bool }.
+
+Definition do_scal (r : regime) (bi : blasinfo) (k : T) (t : nat) (s : store) : store :=
   match r with
-  | Blas => upd s t (blas_scal k (s t))
+  | Blas => if bi_call bi then upd s t (blas_scal k (s t)) else s
   | _ => run_ps t t k fallback_scal s
   end.
-Definition do_axpy (r : regime) (k : T) (src tgt : nat) (s : store) : store :=
+Definition do_axpy (r : regime) (bi : blasinfo) (k : T) (src tgt : nat) (s : store) : store :=
   match r with
-  | Blas => upd s tgt (blas_axpy k (s src) (s tgt))
+  | Blas => if bi_call bi then upd s tgt (blas_axpy k (s src) (s tgt)) else s
   | _ => run_ps src tgt k fallback_axpy s
   end.
-Definition do_copy (r : regime) (src tgt : nat) (s : store) : store :=
+Definition do_copy (r : regime) (bi : blasinfo) (src tgt : nat) (s : store) : store :=
   match r with
-  | Blas => upd s tgt (s src)
+  | Blas => if bi_call bi then upd s tgt (s src) else s
   | _ => run_ps src tgt nzero fallback_copy s
   end.
-Definition do_fill (z : Z) (t : nat) (s : store) : store :=
-  upd s t (map (fun _ => of_Z z) (s t)).
+Definition do_fill (r : regime) (bi : blasinfo) (z : Z) (t : nat) (s : store) : store :=
+  match r with
+  | Blas => if bi_view bi then upd s t (map (fun _ => of_Z z) (s t)) else s
+  | _ => upd s t (map (fun _ => of_Z z) (s t))
+  end.
 
 (* -- one statement of the tree; [rc] is what a recursive call of
    _lincomb_impl does *)
-Fixpoint exec (rc : env -> store -> outcome) (r : regime) (e : env) (st : stmt) (s : store) : outcome :=
+Fixpoint exec (rc : env -> store -> outcome) (r : regime) (bi : blasinfo) (e : env) (st : stmt) (s : store) : outcome :=
   match st with
-  | Scal c t => Ok (do_scal r (sval e c) (opnd e t) s)
-  | Axpy src t c => Ok (do_axpy r (sval e c) (opnd e src) (opnd e t) s)
-  | Copy src t => Ok (do_copy r (opnd e src) (opnd e t) s)
-  | Fill t z => Ok (do_fill z (opnd e t) s)
+  | Scal c t => Ok (do_scal r bi (sval e c) (opnd e t) s)
+  | Axpy src t c => Ok (do_axpy r bi (sval e c) (opnd e src) (opnd e t) s)
+  | Copy src t => Ok (do_copy r bi (opnd e src) (opnd e t) s)
+  | Fill t z => Ok (do_fill r bi z (opnd e t) s)
   | Recurse a x1 b x2 o =>
       rc {| e_a := sval e a; e_b := sval e b; e_x1 := opnd e x1; e_x2 := opnd e x2; e_out := opnd e o |} s
   | If c t f =>
       let seq := fix seq (l : list stmt) (s : store) : outcome :=
-        match l with [] => Ok s | x :: l' => bind (exec rc r e x s) (seq l') end in
+        match l with [] => Ok s | x :: l' => bind (exec rc r bi e x s) (seq l') end in
       if cval e c then seq t s else seq f s
   end.
-Fixpoint exec_list (rc : env -> store -> outcome) (r : regime) (e : env) (l : list stmt) (s : store) : outcome :=
-  match l with [] => Ok s | x :: l' => bind (exec rc r e x s) (exec_list rc r e l') end.
+Fixpoint exec_list (rc : env -> store -> outcome) (r : regime) (bi : blasinfo) (e : env) (l : list stmt) (s : store) : outcome :=
+  match l with [] => Ok s | x :: l' => bind (exec rc r bi e x s) (exec_list rc r bi e l') end.
 
 (* -- the direct regime:  out.data[:] = <vexpr>, evaluated completely before
    the assignment, scalars broadcast *)
@@ -142,21 +151,29 @@ Definition assign_all (cast : T -> T) (old : list T) (v : val) : list T :=
 (* -- _lincomb_impl.  The regime is decided once per call from size, dtype and
    layout; the recursive call re-enters with the same arrays, hence the same
    regime.  Two levels of fuel suffice (proved: never [OutOfFuel]). *)
-Fixpoint lincomb_fuel (fuel : nat) (cast : T -> T) (r : regime) (e : env) (s : store) : outcome :=
+Fixpoint lincomb_fuel (fuel : nat) (cast : T -> T) (r : regime) (bi : blasinfo) (e : env) (s : store) : outcome :=
   match fuel with
   | O => OutOfFuel
   | S f =>
       match r with
       | Direct => Ok (upd s (e_out e) (assign_all cast (s (e_out e)) (veval e s direct_expr)))
-      | _ => exec_list (lincomb_fuel f cast r) r e alias_tree s
+      | _ => exec_list (lincomb_fuel f cast r bi) r bi e alias_tree s
       end
   end.
 
 (* ---------- Part 3: NumpyTensorSpace._lincomb/_multiply/_divide.
-   [fl] = is_floating_dtype(dtype); [bo] = _blas_is_applicable(x1, x2, out) *)
-Definition lincomb_impl (cast : T -> T) (fl bo : bool)
+   [fl] = is_floating_dtype(dtype); [bdt] = dtype in _BLAS_DTYPES;
+   [flags] = (c_contiguous, f_contiguous) of x1.data, x2.data, out.data.
+   All arrays of one tensor space have the same dtype. *)
+Definition blas_info (bdt : bool) (flags : list (bool * bool)) : blasinfo :=
+  let fo := nth 2 flags (false, false) in
+  let view := match blas_ravel_order (snd fo) with OrdF => snd fo | OrdC => fst fo end in
+  {| bi_view := view; bi_call := view && bdt |}.
+
+Definition lincomb_impl (cast : T -> T) (fl bdt : bool) (flags : list (bool * bool))
            (a : T) (x1 : nat) (b : T) (x2 : nat) (out : nat) (s : store) : outcome :=
-  lincomb_fuel 2 cast (regime_of (Z.of_nat (length (s x1))) fl bo)
+  let size := Z.of_nat (length (s x1)) in
+  lincomb_fuel 2 cast (regime_of size fl (blas_applicable true bdt size flags)) (blas_info bdt flags)
     {| e_a := a; e_b := b; e_x1 := x1; e_x2 := x2; e_out := out |} s.
 
 (* np.multiply(x1.data, x2.data, out=out.data), np.divide(...) *)
